@@ -23,6 +23,8 @@ mod value;
 mod context;
 mod descriptor;
 mod init;
+#[cfg(expression_engine_verif)]
+pub mod verif_hooks;
 use std::sync::Arc;
 
 /// ## Usage
